@@ -213,3 +213,23 @@ def check_reader_totality(ctx, rule, P, f, self_adt, tag_adts, allow_default=Fal
             pass
         ctx.ob(rule, "%s@%s" % (f.key, V), built == [V], "assuming the decoded tag is %s the reader builds %s::%s (want exactly %s::%s on its success path)" % (V, self_adt, "/".join(built) if built else "<nothing: this tag is refused>", self_adt, V), where=where(f))
     return n
+
+
+def check_scheme_total(ctx, rule, P, f, root, adt="SignatureSchemes", variants=None):
+    """The operation is offered for every scheme: assuming `root` = V there is a path to a successful result
+    (an `Ok(..)` built in the function, or a tail call that may return Ok) for every variant V."""
+    from .common import where
+    from . import guardrules as R
+
+    n = 0
+    names = variants or [v["name"] for v in P.adts[adt]["variants"]]
+    for V in names:
+        sev = evaluate(f, {root: V})
+        oks = [b for b in R.ok_blocks(f) if b in sev.exit_state]
+        for b in sorted(f.cfg.reachable):
+            t = f.blocks[b]["term"]
+            if b in sev.exit_state and t["k"] == "call" and t.get("dest") == {"l": 0} and (t.get("callee") or {}).get("name") != "from_residual":
+                oks.append(b)
+        n += 1 if oks else 0
+        ctx.ob(rule, "%s@%s" % (f.key, V), bool(oks), "with %s%s = %s the function %s" % (root[0], root[1], V, "can succeed" if oks else "has no success path: this scheme is refused"), where=where(f))
+    return n
